@@ -3972,6 +3972,20 @@ class Fused(Blockwise):
     def _divisions(self):
         return self.exprs[0]._divisions()
 
+    # A fused group is the end product of the optimizer: the expressions in
+    # ``exprs`` refer to the external dependencies by name, so rewriting those
+    # dependencies (when an already optimized expression is optimized again)
+    # would leave the group reading keys that no longer exist.  Everything
+    # below a Fused node has been simplified and lowered before it was fused.
+    def simplify_once(self, dependents, simplified):
+        return self
+
+    def lower_once(self, lowered):
+        return self
+
+    def rewrite(self, kind, rewritten):
+        return self
+
     def _broadcast_dep(self, dep: Expr):
         # Always broadcast single-partition dependencies in Fused
         return dep.npartitions == 1
